@@ -611,6 +611,8 @@ def gen_writes(rng, cfg, nwrites, maxlen=4000, p_blocks=0.3, salt0=1, p_default_
                 # the index / data arrays handed to the writer are views with strides (a column of a table, every
                 # second element of a buffer), not fresh C-contiguous arrays
                 ops[-1]["layout"] = rng.choice(["strided", "column", "data_strided"])
+            elif cfg.kind[0] == "f" and cfg.cstyle in ("struct", "interleaved") and rng.random() < 0.3:
+                ops[-1]["layout"] = "as_complex"   # complex-float channel fed native complex64 / complex128 arrays
             pos = cur_g
         else:
             ln = _pick_len(rng, cfg, cfg.start + rel, maxlen)
@@ -619,6 +621,8 @@ def gen_writes(rng, cfg, nwrites, maxlen=4000, p_blocks=0.3, salt0=1, p_default_
                         "_rel": rel})
             if rng.random() < 0.06:
                 ops[-1]["layout"] = "data_strided"
+            elif cfg.kind[0] == "f" and cfg.cstyle in ("struct", "interleaved") and rng.random() < 0.3:
+                ops[-1]["layout"] = "as_complex"
             pos = rel + ln
         salt += 1
     return ops
